@@ -131,6 +131,114 @@ CHECKS = {
         "modelled and validated by the correspondence; other interpreter versions would show up as disagreements.",
    technique="Lean 4 exhaustive case proof + differential correspondence with live coroutine objects",
    design="6 C20"),
+ "C01": dict(
+   text="Lean 4 proof over a single-coroutine slice of the asyncio kernel (Model/EagerKernel): for every coroutine body, "
+        "every initial state of the futures and every sequence of environment events (futures resolved/cancelled at any "
+        "instant, another awaiter clearing a future's handshake flag at any instant) the eager run (CoroStart._start in a "
+        "copied context, done -> finished future without a Task, else continuation Task) and the plain Task deliver the same "
+        "sequence of resumes to the body, end in the same outcome and futures, and never take the kernel's 'yield without "
+        "handshake' error branch (eager_equiv_task, eager_no_handshake_error); the prefix runs synchronously and a body "
+        "finishing in it (any exception kind incl. BaseException) creates no task (eager_prefix_sync, eager_done_no_task). "
+        "decide-checked witnesses show the pre-fix code violated it. Tie: generated bodies compiled to real async-def source, "
+        "run on a real loop under both drivers and through the Lean driver; oracle = the plain-Task run.",
+   note="Trusted: Lean kernel + {propext, Quot.sound}; Task.__step/__wakeup/cancel and the Future handshake are modelled; "
+        "custom task factories are covered by the correspondence only.",
+   technique="Lean 4 equivalence proof (eager run = plain Task) + differential correspondence on a real loop",
+   design="6 C01"),
+ "C03": dict(
+   text="Lean 4 proof on the same kernel model with cancel events at every instant: cancelling the awaitable returned by "
+        "eager() while the body is suspended - including before the continuation's first step - resumes the body with "
+        "CancelledError at its suspension point and cancels the awaited future as Task.cancel does; resume traces and "
+        "outcomes equal those of the plain Task cancelled at the corresponding instant (cancel_equiv_task under the explicit "
+        "`Delayed` view for the cancel-before-first-step window), and leaving cancelling()/eager_ctx never leaves a started "
+        "coroutine suspended (ctx_exit_finishes). decide-checked witnesses for the pre-fix code (body never resumed). Tie and "
+        "oracle as for C01 with cancels injected at each instant; coro_is_finished read before any GC.",
+   note="Trusted: as C01. Documented residual of the repair: a cancel issued before the continuation's first step takes "
+        "effect at that step; if the awaited object completes in between, a plain Task's cancel could have been absorbed "
+        "(covered by `Delayed`; the oracle accepts both orders).",
+   technique="Lean 4 equivalence proof under cancellation + differential correspondence with injected cancels",
+   design="6 C03"),
+ "C06": dict(
+   text="Lean 4 proof: the model of GeneratorObjectIterator.asend/_athrow/aclose over the Monitor model (`goi`) and a reference "
+        "model of CPython async generators (`nativeAG`) are step- and trace-equivalent for every user generator body and "
+        "every consumer sequence over anext/asend/athrow/aclose on new, suspended, running, exhausted and failed generators, "
+        "up to the first 'ignored GeneratorExit' (goi_step_eq, goi_trace_eq), from any nesting depth of the await chain "
+        "(ayield_any_depth) and through aiter_sync (goi_sync_eq); hypotheses NoOOB/ThrowOk/ResumeOk are explicit predicates "
+        "matching the property's exclusions. Three-way correspondence on generated bodies rendered from one AST: real GOI vs "
+        "goi model, CPython native vs nativeAG model, real GOI vs CPython native (the oracle).",
+   note="Trusted: Lean kernel + standard axioms; CPython's async-generator protocol is modelled (nativeAG) and validated "
+        "against the interpreter; two CPython 3.12.1 quirks (asend().close() on a suspended consumer, throw into a "
+        "suspended aclose) are excluded and documented in notes/C06.md.",
+   technique="Lean 4 bisimulation proof + three-way differential correspondence against native async generators",
+   design="6 C06"),
+ "C07": dict(
+   text="Lean 4 proof: Monitor (oob, _asend, aawait/athrow/aclose/start/try_await, BoundMonitor) modelled line by line; the "
+        "driver-visible trace refines an ideal channel with no monitor state for every body and every action list "
+        "(oob_exactly_once_in_order), replies and results are delivered (oob_reply, result_delivered), the monitor is idle "
+        "after every entry point returns or raises incl. close of the relay generator (idle_after_*), re-entrant use is "
+        "refused leaving the whole system state unchanged (reentry_refused), oob while closing is RuntimeError. Nested "
+        "monitors are proved per view (inner/outer); the single end-to-end statement for arbitrary nesting depth is not "
+        "proved (partial). Correspondence: generated bodies driven raw, inside a Task and by await_sync, Monitor.state after "
+        "every call.",
+   note="Trusted: Lean kernel + standard axioms; Proto envelope modelled; PEP-380 delivery of GeneratorExit through nested "
+        "frames modelled in MonProg (generators avoid nested frames that swallow a closing GeneratorExit).",
+   technique="Lean 4 trace-refinement proof + differential correspondence",
+   design="6 C07"),
+ "C08": dict(
+   text="Lean 4 proof: deque_pop equals list erase at every valid index and raises exactly outside (dequePop_eq_eraseIdx), "
+        "queue_find/queue_remove/call_pos meet their list specifications; an abstract `ListLike` queue interface is proved "
+        "for the deque loops and - for every lawful heapq, any boost factor and any draws under the equal-priority invariant - "
+        "for the priority queue (listLike_priority_loop, built on the C17/C19 container theory); the compound operations "
+        "sleep_insert, task_reinsert, task_switch, create_task_descend are proved against the list model for every ListLike "
+        "queue (caller ends exactly min(p,len) entries from the head, nothing else moves, ValueError changes nothing, each "
+        "handle runs once). Correspondence: multi-task programs on the three real loop configurations vs the Lean scheduler "
+        "model; oracle: an independent reference list; deque primitives exhaustively for lengths 0..64.",
+   note="Trusted: Lean kernel + standard axioms; collections.deque rotate/insert/remove and Task stepping modelled; the "
+        "RLock around PosPriorityQueue is C18's subject.",
+   technique="Lean 4 refinement proofs (queue = list) + program-level differential correspondence on three loops",
+   design="6 C08"),
+ "C10": dict(
+   text="Lean 4 proof: the popped entry is minimal for (class, key, arrival) in every reachable queue state (popleft_min), "
+        "drains are sorted, positional entries come first in their requested order, equal keys are FIFO, rescheduling keeps "
+        "the class, every documented priority representation is accepted (priority_domain_total), and with all priorities "
+        "equal the priority queue and the plain deque hold the same abstract queue and run the same handles in the same order "
+        "after every admissible history with boosting at any factor (equal_pri_like_plain_loop_history, using C19's "
+        "maintenance_noop_equal). Correspondence: programs with per-task priorities (ints, floats, Priority members), plain "
+        "tasks/callbacks mixed in, priority changes, create_task_descend under PriorityLock contention, histories long "
+        "enough for maintenance; oracle: at every resumption the resumed entry vs runnable_tasks() under the stated order, "
+        "and log equality with SchedulingSelectorEventLoop for the equal-priority clause.",
+   note="Trusted: Lean kernel + standard axioms; get_priority/effective_priority evaluation at queueing time modelled in "
+        "Model/Sched; lock owners never wait on another lock in these programs (chains are C11/C12's).",
+   technique="Lean 4 order/invariant proofs on the container model + program-level differential correspondence",
+   design="6 C10"),
+ "C14": dict(
+   text="Lean 4 proof on a small-step model of PriorityCondition.wait/_released/_notify, wait_for and InterruptCondition.wait "
+        "with any CancelledError-derived exception arriving in any of the three phases, repeatedly: every exit of wait() "
+        "happens with the caller owning the lock (wait_exit_holds_lock), the exception that leaves is one that was delivered "
+        "(exception_identity), notify(n) wakes the not-yet-notified waiters minimal for (priority at wait start, arrival) "
+        "(notify_order*), a notified waiter that leaves by exception passes the notification on (notify_not_lost, stated per "
+        "exit), and the partial ordereditems walk restores the waiter queue (cond_restore_pq, citing C17). Tie: trace "
+        "acceptance of real producer/consumer runs stepped one handle at a time with faults at each phase, over PriorityLock "
+        "and asyncio.Lock; oracles: lock owner at every exit, exception identity, tokens vs live waiters, wake order.",
+   note="Trusted: Lean kernel + standard axioms; the underlying lock is abstract (mutual exclusion assumed: C13 for "
+        "PriorityLock, stdlib for asyncio.Lock); runs on SelectorEventLoop only; the hand-over clause is claimed for "
+        "PriorityCondition (the subject of that sentence).",
+   technique="Lean 4 invariant proofs on the condition state machine + trace acceptance under injected faults",
+   design="6 C14"),
+ "C16": dict(
+   text="Lean 4 proof on the task_timeout state machine (per level: active flag, interrupt identity, timer, interruptor with "
+        "its retry loop; foreign interrupts; arbitrary unwinding): once a level's block has exited no throw carrying its "
+        "interrupt is ever performed (no_interrupt_after_exit), a block still active when its interruptor runs is interrupted "
+        "and raises TimeoutError (fires_if_outlives), TimeoutError first appears at exactly the level whose interrupt was "
+        "thrown and foreign interrupts pass unchanged (nested_level_exact), task_timeout(None) is the identity. Tie: trace "
+        "acceptance under a virtual clock on the three loop classes with every ordering of deadline vs completion incl. exact "
+        "ties; oracles on the real code (nobody outlives a deadline, nothing reaches the task after the block, owning level, "
+        "awaited tasks not cancelled). PARTIAL with respect to real time and the selector: that the timer fires at the "
+        "deadline is asyncio plus the virtual clock, not proved.",
+   note="Trusted: Lean kernel + standard axioms; asyncio timers/_run_once batching modelled through the virtual-clock loops; "
+        "the third-refusal path of the interruptor is proved but not produced by the generator.",
+   technique="Lean 4 invariant proofs on the timeout state machine + virtual-clock trace acceptance",
+   design="6 C16"),
 }
 
 def main():
@@ -155,7 +263,7 @@ def main():
           for p in ALL if p not in CHECKS]
     m = {
         "version": 1,
-        "setup_cmd": "cd lean && lake build",
+        "setup_cmd": "python3 translator/py2lean.py /repo/src lean/Asynkit/Gen && cd lean && lake build",
         "hooks": {"guard": "ASYNKIT_VERIF", "enable": "no source hooks: the harness instruments from outside (subclassed loops, wrapped Handle._run, patched random); checks export ASYNKIT_VERIF=1 for uniformity",
                   "baseline_off_cmd": "tools/baseline.py", "source_commits": [], "add_only": True},
         "engines": [{"name": "lean4-proof+correspondence", "path": "check",
